@@ -33,10 +33,10 @@ def handleIdle (d : Daemon) (i : Id) : Daemon × List Event :=
 
 /-- `MHD_connection_handle_read` with data available, followed by the part of the state machine
     that calls the application (which consumes the data and may suspend the connection) -/
-def readData (d : Daemon) (i : Id) : Daemon × List Event :=
+def readData (v : Variant) (d : Daemon) (i : Id) : Daemon × List Event :=
   let c := d.c i
   let d1 := d.set i { c with unread := false, readReady := false }
-  let d2 := updateLastActivity d1 i
+  let d2 := updateLastActivity v d1 i
   let c2 := d2.c i
   if c2.kind = Kind.post then
     if c2.wantSusp then
@@ -59,10 +59,10 @@ def eofCode (k : Kind) : Nat := match k with
   | _ => 5
 
 /-- `call_handlers` in the select loop; `rReady` = the socket was in the read set -/
-def callHandlersSel (d : Daemon) (i : Id) (rReady : Bool) : Daemon × List Event :=
+def callHandlersSel (v : Variant) (d : Daemon) (i : Id) (rReady : Bool) : Daemon × List Event :=
   let c := d.c i
   if c.closed then handleIdle d i
-  else if rReady ∧ c.unread then seq2 (readData d i) (fun d => handleIdle d i)
+  else if rReady ∧ c.unread then seq2 (readData v d i) (fun d => handleIdle d i)
   else if rReady ∧ c.peerClosed then seq2 (closeOther d i (eofCode c.kind)) (fun d => handleIdle d i)
   else handleIdle d i
 
@@ -72,7 +72,7 @@ def callHandlersSel (d : Daemon) (i : Id) (rReady : Bool) : Daemon × List Event
 def travSel (v : Variant) (rs : List Id) : List Id → Daemon → Daemon × List Event
   | [], d => (d, [])
   | i :: rest, d =>
-    let r := callHandlersSel d i (rs.contains i)
+    let r := callHandlersSel v d i (rs.contains i)
     if v.savePrev = false ∧ i ∉ r.1.conns then r
     else seq2 r (travSel v rs rest)
 
@@ -80,7 +80,7 @@ def travSel (v : Variant) (rs : List Id) : List Id → Daemon → Daemon × List
 def roundSelect (v : Variant) (d : Daemon) : Daemon × List Event :=
   -- MHD_get_fdset2 + select(0): taken before anything else happens
   let rs := d.conns.filter fun i => !(d.c i).closed && ((d.c i).unread || (d.c i).peerClosed)
-  let d1 := if d.cfg.allowSuspend then resumeSuspended d else d
+  let d1 := if d.cfg.allowSuspend then resumeSuspended v d else d
   let d2 := { d1 with dataPending := false }
   seq2 (seq2 (processNew v d2) (fun d => travSel v rs d.conns.reverse d)) cleanupAll
 
@@ -113,7 +113,7 @@ def scanNormal : List Id → Daemon → Daemon × List Event
     if (r.1.c i).closed then seq2 r (scanNormal rest) else r
 
 /-- `call_handlers` for a connection of the eready list -/
-def callHandlersE0 (d : Daemon) (i : Id) : Daemon × List Event :=
+def callHandlersE0 (v : Variant) (d : Daemon) (i : Id) : Daemon × List Event :=
   let c := d.c i
   if i ∈ d.cleanup then (d, [])
   else if c.errFlag then
@@ -121,31 +121,31 @@ def callHandlersE0 (d : Daemon) (i : Id) : Daemon × List Event :=
     else seq2 (closeOther d i 1) (fun d => handleIdle d i)
   else if c.closed then handleIdle d i
   else if c.readReady then
-    if c.unread then seq2 (readData d i) (fun d => handleIdle d i)
+    if c.unread then seq2 (readData v d i) (fun d => handleIdle d i)
     else if c.peerClosed then seq2 (closeOther d i (eofCode c.kind)) (fun d => handleIdle d i)
     else handleIdle (d.set i { c with readReady := false }) i
   else handleIdle d i
 
 /-- … followed by the eready-removal rule of `MHD_epoll` -/
-def callHandlersE (d : Daemon) (i : Id) : Daemon × List Event :=
-  let r := callHandlersE0 d i
+def callHandlersE (v : Variant) (d : Daemon) (i : Id) : Daemon × List Event :=
+  let r := callHandlersE0 v d i
   let c' := r.1.c i
   if c'.suspended = false ∧ (c'.closed ∨ c'.readReady = false) then
     ({ r.1 with eready := without r.1.eready i }, r.2)
   else r
 
-def procEready : List Id → Daemon → Daemon × List Event
+def procEready (v : Variant) : List Id → Daemon → Daemon × List Event
   | [], d => (d, [])
-  | i :: rest, d => seq2 (callHandlersE d i) (procEready rest)
+  | i :: rest, d => seq2 (callHandlersE v d i) (procEready v rest)
 
 /-- one round of the epoll loop (`MHD_epoll` + `MHD_cleanup_connections`) -/
 def roundEpoll (v : Variant) (d : Daemon) : Daemon × List Event :=
-  let d1 := if d.cfg.allowSuspend then resumeSuspended d else d
+  let d1 := if d.cfg.allowSuspend then resumeSuspended v d else d
   let d2 := epollWait { d1 with dataPending := false }
   seq2 (seq2 (seq2 (seq2 (processNew v d2)
     (fun d => scanManual d.manual.reverse d))
     (fun d => scanNormal d.normal.reverse d))
-    (fun d => procEready d.eready.reverse d))
+    (fun d => procEready v d.eready.reverse d))
     cleanupAll
 
 def round (v : Variant) (d : Daemon) : Daemon × List Event :=
@@ -199,8 +199,8 @@ def step (v : Variant) (d : Daemon) : Op → Option (Daemon × List Event)
     then some (clientData d i Kind.frag, []) else none
   | .cclose i =>
     if i ∈ d.used ∧ (d.c i).peerClosed = false then some (clientClose d i, []) else none
-  | .tick ms => some ({ d with now := d.now + ms }, [])
-  | .tickback ms => if ms ≤ d.now then some ({ d with now := d.now - ms }, []) else none
+  | .tick ms => some ({ d with now := d.now + ms, back := d.back - ms }, [])
+  | .tickback ms => if ms ≤ d.now then some ({ d with now := d.now - ms, back := d.back + ms }, []) else none
   | .setTimeout i s =>
     if d.started i ∧ s ≤ 4000000 then some (setTimeout v d i s, []) else none
   | .susp i => if i ∈ d.used then some (d.set i { (d.c i) with wantSusp := true }, []) else none
